@@ -78,22 +78,26 @@ SKIP_PARAMS = {"numerical_jacobian_epsilon", "minimal_time_step_scaling_factor",
 HYP_FLAG = {"hag": "-DBRICK_HAG", "hpe": "-DBRICK_HPE", "h3d": "-DBRICK_H3D"}
 
 
-def stable_gen_dir(c, gdir, pid):
-    """copy of the generated sources in a directory named by their content (.cache/gen/<ID>-<hash>): vlib's object cache is keyed by the
-    compiler flags, which contain the include path of the generated headers; the per-run scratch directory would defeat it"""
+def stable_gen_dir(c, gdir, pid, names):
+    """copy of the generated sources of the behaviours `names` in a directory named by their content (.cache/gen/<ID>-<hash>): vlib's
+    object cache is keyed by the compiler flags, which contain the include path of the generated headers; the per-run scratch
+    directory would defeat it"""
     import hashlib, shutil
+    files = []
+    for n in names:
+        files += [os.path.join("include", "TFEL", "Material", n + x + ".hxx") for x in ("", "BehaviourData", "IntegrationData")]
+        files += [os.path.join("src", n + ".cxx"), "cfg_%s.hxx" % n]
+    files = [f for f in files if os.path.exists(os.path.join(gdir, f))]
     h = hashlib.sha256()
-    for root, dirs, files in sorted(os.walk(gdir)):
-        dirs.sort()
-        for f in sorted(files):
-            p = os.path.join(root, f)
-            h.update(os.path.relpath(p, gdir).encode())
-            h.update(open(p, "rb").read())
-    dst = os.path.join(vlib.CACHE, "gen", "%s-%s" % (pid, h.hexdigest()[:20]))
+    for f in files:
+        h.update(f.encode())
+        h.update(open(os.path.join(gdir, f), "rb").read())
+    dst = os.path.join(vlib.CACHE, "gen", "%s-%s-%s" % (pid, names[0], h.hexdigest()[:20]))
     if not os.path.isdir(dst):
-        os.makedirs(os.path.dirname(dst), exist_ok=True)
-        tmp = "%s.%d.tmp" % (dst, os.getpid())
-        shutil.copytree(gdir, tmp)
+        tmp = "%s.%d.%d.tmp" % (dst, os.getpid(), __import__("threading").get_ident())
+        for f in files:
+            os.makedirs(os.path.dirname(os.path.join(tmp, f)), exist_ok=True)
+            shutil.copy(os.path.join(gdir, f), os.path.join(tmp, f))
         try:
             os.replace(tmp, dst)
         except OSError:
@@ -149,16 +153,17 @@ def main(c):
             if b.get("double_only"):
                 f.write("#define BEH_DOUBLE_ONLY\n")
             f.write(b.get("extra", ""))
-    gdir = stable_gen_dir(c, gdir, "C43")
+    sdir = {n: stable_gen_dir(c, gdir, "C43", [n]) for n in names}
 
     def one(n):
         b = BRICKS[n]
         tag = b["tag"]
         hy = hyps_of(n)
+        sd = sdir[n]
         try:
-            exe = c.cxx("trace_" + tag, [os.path.join(HERE, "trace_brick.cxx"), os.path.join(gdir, "src", n + ".cxx")],
+            exe = c.cxx("trace_" + tag, [os.path.join(HERE, "trace_brick.cxx"), os.path.join(sd, "src", n + ".cxx")],
                         gbeh.SUPPORT + ["src/Math/MathException.cxx"],
-                        flags=gbeh.include_flags(gdir) + ["-I" + gdir, '-DBRICK_CFG="cfg_%s.hxx"' % n] + [HYP_FLAG[x] for x in hy.split(",")])
+                        flags=gbeh.include_flags(sd) + ["-I" + sd, '-DBRICK_CFG="cfg_%s.hxx"' % n] + [HYP_FLAG[x] for x in hy.split(",")])
         except vlib.BuildError as e:
             return n, "build", "", str(e), None
         out_v = os.path.join(c.work, "coq", "Gen%s.v" % tag)
